@@ -1,6 +1,6 @@
 (* C09: per-partition order, one payload per message per attempt, serial batches, retry discipline, attempt bound,
    back-off index - lemmas about Model/Producer.v. *)
-From AV Require Import Base.Util Model.Producer Proofs.ProducerBase Proofs.ProducerInv.
+From AV Require Import Base.Util Model.Producer Proofs.ProducerBase Proofs.ProducerInv Proofs.ProducerC19.
 From Coq Require Import Lia Permutation Sorted.
 
 (* ------------------------------------------------------------------ topic-partitions *)
@@ -650,4 +650,736 @@ Proof.
   apply mon_k_stays in E; auto. simpl in E.
   simpl in H. destruct (m_fl m2); simpl in H; [|discriminate]. destruct (k =? m_k m2) eqn:E2; [|discriminate].
   apply Z.eqb_eq in E2. lia.
+Qed.
+
+(* ------------------------------------------------------------------ retries: only what failed, acknowledged payloads at once *)
+Definition resps_of (v : value) : list (tp * Z * Z) :=
+  match v with VResp rs | VFailed rs _ => rs | _ => [] end.
+
+Lemma process_resps_fl_err : forall rs s pls s' out fl, process_resps s pls rs = (s', out, fl) ->
+  forall x, In x (tps_of_fl fl) -> exists err off, In (x, err, off) rs /\ err <> 0.
+Proof.
+  induction rs as [|[[y err] off] r IH]; simpl; intros s pls s' out fl H x Hx.
+  - inv H. destruct Hx.
+  - destruct (err =? 0) eqn:Ez.
+    + destruct (deliver s (sends_of pls y) _) as [s1 o1]. destruct (process_resps s1 pls r) as [[s2 o2] f2] eqn:E2. inv H.
+      destruct (IH _ _ _ _ _ E2 _ Hx) as (e & o & A & B). exists e, o; auto.
+    + destruct (process_resps s pls r) as [[s2 o2] f2] eqn:E2. inv H. simpl in Hx. destruct Hx as [<-|Hx].
+      * exists err, off. split; auto. apply Z.eqb_neq; auto.
+      * destruct (IH _ _ _ _ _ E2 _ Hx) as (e & o & A & B). exists e, o; auto.
+Qed.
+
+Lemma nodup_fst_unique : forall (rs : list (tp * Z * Z)) x e1 o1 e2 o2,
+  NoDup (map (fun e : tp * Z * Z => fst (fst e)) rs) -> In (x, e1, o1) rs -> In (x, e2, o2) rs -> e1 = e2.
+Proof.
+  induction rs as [|[[y e] o] r IH]; simpl; intros x e1 o1 e2 o2 N A B; [tauto|]. inversion N; subst.
+  destruct A as [A|A], B as [B|B].
+  - inv A; inv B; auto.
+  - inv A. exfalso. apply H1. apply in_map_iff. exists (x, e2, o2); auto.
+  - inv B. exfalso. apply H1. apply in_map_iff. exists (x, e1, o1); auto.
+  - eapply IH; eauto.
+Qed.
+
+Lemma check_retry_phase : forall c s pls fl s1 o1, check_retry c s pls fl = (s1, o1, false) ->
+  exists tid, ph s1 = RetryWait pls (tps_of_fl fl) tid.
+Proof.
+  unfold check_retry; intros c s pls fl s1 o1 H. destruct ((c_max c <=? attempts s) || stopping s).
+  - destruct (deliver_failed s pls fl); inv H.
+  - inv H. eexists; reflexivity.
+Qed.
+
+Lemma handle_result_retry : forall c s pls cur v s1 o1,
+  result_ok c cur v = true -> handle_result c s pls cur v = (s1, o1, false) ->
+  exists cur' tid, ph s1 = RetryWait pls cur' tid /\ incl cur' cur /\
+                   forall x off, In (x, 0, off) (resps_of v) -> ~ In x cur'.
+Proof.
+  unfold handle_result; intros c s pls cur v s1 o1 OK H. destruct v.
+  - destruct (deliver s (all_sends pls) _); inv H.
+  - simpl in OK. apply andb_true_iff in OK as [OK S2]. apply andb_true_iff in OK as [OK S1]. apply andb_true_iff in OK as [_ ND].
+    apply nodup_tp_NoDup in ND. apply subset_tp_incl in S1.
+    destruct (process_resps s pls rs) as [[s2 o2] f2] eqn:E.
+    pose proof (process_resps_fl _ _ _ _ _ _ E) as [F1 _]. pose proof (process_resps_fl_err _ _ _ _ _ _ E) as F3.
+    destruct f2 as [|p0 f2]; [inv H|].
+    destruct (check_retry c s2 pls (p0 :: f2)) as [[s3 o3] d3] eqn:E3. inv H.
+    apply check_retry_phase in E3 as [tid E3]. eexists; exists tid. split; [exact E3|]. split.
+    + eapply incl_tran; [exact F1|exact S1].
+    + simpl. intros x off Hx Hc. destruct (F3 _ Hc) as (e & o & A & B). apply B. eapply nodup_fst_unique; eauto.
+  - simpl in OK. apply andb_true_iff in OK as [OK _]. apply andb_true_iff in OK as [OK S1]. apply andb_true_iff in OK as [_ ND].
+    apply nodup_tp_NoDup in ND. apply subset_tp_incl in S1.
+    destruct (if c_acks c =? 0 then _ else _) as [s0 o0].
+    destruct (process_resps s0 pls rs) as [[s2 o2] f2] eqn:E.
+    pose proof (process_resps_fl _ _ _ _ _ _ E) as [F1 _]. pose proof (process_resps_fl_err _ _ _ _ _ _ E) as F3.
+    destruct (check_retry c s2 pls _) as [[s3 o3] d3] eqn:E3. inv H.
+    apply check_retry_phase in E3 as [tid E3]. eexists; exists tid. split; [exact E3|].
+    unfold tps_of_fl. rewrite map_app, map_map. simpl. fold (tps_of_fl f2). split.
+    + apply incl_app; (eapply incl_tran; [|exact S1]); [apply incl_appr, incl_refl|].
+      eapply incl_tran; [exact F1|apply incl_appl, incl_refl].
+    + simpl. intros x off Hx Hc. apply in_app_or in Hc as [Hc|Hc].
+      * assert (Hr : In x (map (fun e : tp * Z * Z => fst (fst e)) rs)) by (apply in_map_iff; exists (x, 0, off); auto).
+        clear - ND Hr Hc. induction (map (fun e : tp * Z * Z => fst (fst e)) rs) as [|y r IH]; simpl in *; [tauto|].
+        inversion ND; subst. destruct Hr as [->|Hr]; [apply H1; apply in_or_app; auto|auto].
+      * destruct (F3 _ Hc) as (e & o & A & B). apply B. eapply nodup_fst_unique; eauto.
+        clear - ND. induction rs; simpl in *; [constructor|]. inversion ND; subst. constructor; auto.
+        intros X; apply H1; apply in_or_app; auto.
+  - apply check_retry_phase in H as [tid H]. eexists; exists tid. split; [exact H|].
+    unfold tps_of_fl. rewrite map_map. simpl. rewrite map_id. split; [apply incl_refl|intros ? ? []].
+  - destruct (deliver s (all_sends pls) _); inv H.
+Qed.
+
+Theorem retry_subset : forall c s pls cur v s' out, Inv s -> ph s = Sending pls cur -> result_ok c cur v = true ->
+  step c s (EResult v) = (s', out) ->
+  In OBatchDone out \/
+  exists cur' tid, ph s' = RetryWait pls cur' tid /\ incl cur' cur /\
+                   forall x off, In (x, 0, off) (resps_of v) -> ~ In x cur'.
+Proof.
+  intros c s pls cur v s' out I P OK H. unfold step in H. cbn [core] in H. rewrite P, OK in H.
+  destruct (handle_result c s pls cur v) as [[s1 o1] done] eqn:E. unfold fin_if in H.
+  destruct done; simpl in H.
+  - left. unfold finish, finish0 in H. destruct (check_send_batch c _) as [s2 o2]. inv H.
+    apply in_or_app; right; left; reflexivity.
+  - inv H. right. eapply handle_result_retry; eauto.
+Qed.
+
+Theorem retry_resends : forall c s pls cur tid s' out, ph s = RetryWait pls cur tid -> step c s (ETimer tid) = (s', out) ->
+  out = [OSendProduce (nsp s + 1) (magic_of s) (map payload_view (filter (fun p => tpmem (p_tp p) cur) pls))] /\
+  ph s' = Sending pls cur.
+Proof.
+  intros c s pls cur tid s' out P H. unfold step in H. cbn [core] in H. rewrite P, Z.eqb_refl in H. simpl in H. inv H. auto.
+Qed.
+
+(* an acknowledged payload is reported in the same step: none of its requests is outstanding afterwards *)
+Lemma deliver_covers : forall l s o s' out, deliver s l o = (s', out) ->
+  incl (outstanding s') (outstanding s) /\ forall y, In y l -> ~ In (s_id y) (outstanding s').
+Proof.
+  induction l as [|x r IH]; simpl; intros s o s' out H.
+  - inv H. split; [apply incl_refl|intros ? []].
+  - destruct (zmem (s_id x) (outstanding s)) eqn:M.
+    + destruct (deliver _ r o) as [s1 o1] eqn:E. inv H. apply IH in E as [A B]. simpl in A. split.
+      * intros i Hi. apply A in Hi. apply zremove_In in Hi as [Hi _]. exact Hi.
+      * intros y [<-|Hy]; auto. intros X. apply A in X. apply zremove_In in X as [_ X]. auto.
+    + apply IH in H as [A B]. split; auto. intros y [<-|Hy]; auto. intros X. apply A in X. apply zmem_false in M. auto.
+Qed.
+
+Lemma process_resps_covers : forall rs s pls s' out fl, process_resps s pls rs = (s', out, fl) ->
+  incl (outstanding s') (outstanding s) /\
+  forall x off, In (x, 0, off) rs -> forall y, In y (sends_of pls x) -> ~ In (s_id y) (outstanding s').
+Proof.
+  induction rs as [|[[x err] off] r IH]; simpl; intros s pls s' out fl H.
+  - inv H. split; [apply incl_refl|intros ? ? []].
+  - destruct (err =? 0) eqn:Ez.
+    + destruct (deliver s (sends_of pls x) _) as [s1 o1] eqn:E1. destruct (process_resps s1 pls r) as [[s2 o2] f2] eqn:E2. inv H.
+      apply deliver_covers in E1 as [A1 B1]. apply IH in E2 as [A2 B2]. split; [eapply incl_tran; eauto|].
+      intros x0 off0 [X|X] y Hy; [inv X; intros Z; apply (B1 y Hy); auto|eapply B2; eauto].
+    + destruct (process_resps s pls r) as [[s2 o2] f2] eqn:E2. inv H. apply IH in E2 as [A2 B2]. split; auto.
+      intros x0 off0 [X|X] y Hy; [inv X; discriminate|eapply B2; eauto].
+Qed.
+
+Theorem acked_reported : forall c s pls cur v s' out x off y, Inv s -> ph s = Sending pls cur -> result_ok c cur v = true ->
+  step c s (EResult v) = (s', out) ->
+  In (x, 0, off) (resps_of v) -> In y (sends_of pls x) -> In (s_id y) (outstanding s) -> In (s_id y) (oc out).
+Proof.
+  intros c s pls cur v s' out x off y I P OK H Hx Hy Ho.
+  destruct (step_inv _ _ _ _ _ I H) as [_ Pm _]. simpl in Pm. rewrite app_nil_r in Pm.
+  eapply Permutation_in in Ho; [|exact Pm]. apply in_app_or in Ho as [Ho|Ho]; auto. exfalso.
+  (* it cannot still be outstanding *)
+  pose proof I as [W L]. pose proof W as [IB PW ID ST].
+  assert (N : NoDup (outstanding s)) by apply (i_onodup _ _ IB).
+  assert (D : NoDup (ids (all_sends pls))) by (pose proof (i_bnodup _ _ IB) as X; rewrite P in X; exact X).
+  unfold step in H. cbn [core] in H. rewrite P, OK in H.
+  destruct (handle_result c s pls cur v) as [[s1 o1] done] eqn:E.
+  assert (C1 : ~ In (s_id y) (outstanding s1)).
+  { clear H. unfold handle_result in E. destruct v; simpl in Hx; try tauto.
+    - destruct (process_resps s pls rs) as [[s2 o2] f2] eqn:E2.
+      pose proof (process_resps_xo _ _ _ _ _ _ E2) as [X1 _].
+      pose proof (process_resps_ostep _ _ _ _ _ _ N E2) as O2. pose proof (ostep_nodup _ _ _ _ O2 N) as N2.
+      apply process_resps_covers in E2 as [_ B2]. specialize (B2 _ _ Hx _ Hy).
+      destruct f2; [inv E; auto|].
+      destruct (check_retry c s2 pls _) as [[s3 o3] d3] eqn:E3. inv E.
+      apply check_retry_bstep in E3; auto. intros Z. apply B2. eapply ostep_sub; [apply (bs_ostep _ _ _ _ _ E3)|exact Z].
+    - destruct (if c_acks c =? 0 then _ else _) as [s0 o0] eqn:E0.
+      assert (A0 : ostep (ids (all_sends pls)) s s0 o0).
+      { destruct (c_acks c =? 0).
+        - apply deliver_ostep in E0 as [A _]; auto. eapply ostep_mono; [|exact A]. apply ids_incl, all_sends_filter_incl.
+        - inv E0. apply ostep_nil; reflexivity. }
+      pose proof (ostep_nodup _ _ _ _ A0 N) as N0.
+      destruct (process_resps s0 pls rs) as [[s2 o2] f2] eqn:E2.
+      pose proof (process_resps_ostep _ _ _ _ _ _ N0 E2) as O2. pose proof (ostep_nodup _ _ _ _ O2 N0) as N2.
+      apply process_resps_covers in E2 as [_ B2]. specialize (B2 _ _ Hx _ Hy).
+      destruct (check_retry c s2 pls _) as [[s3 o3] d3] eqn:E3. inv E.
+      apply check_retry_bstep in E3; auto. intros Z. apply B2. eapply ostep_sub; [apply (bs_ostep _ _ _ _ _ E3)|exact Z]. }
+  apply handle_result_bstep in E; auto. unfold fin_if in H. destruct done; simpl in H.
+  - pose proof (invB_bstep _ _ _ _ _ [] (eq_rect _ (fun p => InvB (batch_sends p) s) IB _ P) E (incl_nil_l _) (NoDup_nil _)) as I2.
+    destruct (finish c s1) as [s2 o2] eqn:F. inv H.
+    apply finish_inv with (B := []) in F as (_ & O2 & _); auto. apply C1. eapply ostep_sub; eauto.
+  - inv H. auto.
+Qed.
+
+(* ------------------------------------------------------------------ what a produce request contains *)
+Definition viewf (pls : list payload) (cur : list tp) : list (tp * list (Z * Z)) :=
+  map payload_view (filter (fun p => tpmem (p_tp p) cur) pls).
+Definition no_sp (o : list output) : Prop := forall a m v, ~ In (OSendProduce a m v) o.
+(* a step makes at most one produce request; it is its last output and the request the producer waits on in s' *)
+Definition sp_ok (s' : state) (out : list output) : Prop :=
+  no_sp out \/
+  exists pre a m pls cur, out = pre ++ [OSendProduce a m (viewf pls cur)] /\ no_sp pre /\ ph s' = Sending pls cur /\ a = nsp s'.
+
+Lemma no_sp_app : forall a b, no_sp a -> no_sp b -> no_sp (a ++ b).
+Proof. unfold no_sp; intros a b A B x m v H. apply in_app_or in H as [H|H]; [eapply A|eapply B]; eauto. Qed.
+Lemma no_sp_nil : no_sp []. Proof. intros ? ? ? []. Qed.
+Lemma no_sp_outcomes : forall o, only_outcomes o -> no_sp o.
+Proof. unfold only_outcomes; intros o F a m v H. rewrite Forall_forall in F. apply F in H. discriminate. Qed.
+Lemma no_sp_lk : forall o, lk_outs o -> no_sp o.
+Proof. unfold lk_outs; intros o F a m v H. rewrite Forall_forall in F. apply F in H. discriminate. Qed.
+Lemma no_sp_ok : forall s o, no_sp o -> sp_ok s o.
+Proof. intros s o N; left; exact N. Qed.
+Lemma sp_ok_app_l : forall s a b, no_sp a -> sp_ok s b -> sp_ok s (a ++ b).
+Proof.
+  intros s a b A [B|(pre & x & m & pls & cur & -> & N & P & E)]; [left; apply no_sp_app; auto|].
+  right. exists (a ++ pre), x, m, pls, cur. rewrite app_assoc. repeat split; auto. apply no_sp_app; auto.
+Qed.
+
+Lemma filter_all_tps : forall pls, filter (fun p => tpmem (p_tp p) (map p_tp pls)) pls = pls.
+Proof.
+  intros pls. assert (G : forall l, incl l pls -> filter (fun p => tpmem (p_tp p) (map p_tp pls)) l = l).
+  { induction l as [|p r IH]; simpl; intros I; auto.
+    assert (X : tpmem (p_tp p) (map p_tp pls) = true) by (apply tpmem_In, in_map, I; left; reflexivity).
+    rewrite X, IH; auto. intros z Hz; apply I; right; auto. }
+  apply G, incl_refl.
+Qed.
+
+Lemma send_requests_sp : forall s reqs res s1 o1 done, send_requests s reqs res = (s1, o1, done) ->
+  (no_sp o1) \/ (done = false /\ sp_ok s1 o1).
+Proof.
+  unfold send_requests; intros s reqs res s1 o1 done H.
+  destruct (stopping s); [inv H; left; apply no_sp_nil|].
+  destruct (api s =? 0); [inv H; left; intros a m v [X|[]]; discriminate|].
+  destruct (group_requests s reqs res []) as [[s2 o2] pls] eqn:E. apply group_requests_xo in E as [_ X2].
+  destruct pls as [|p pls]; inv H; [left; apply no_sp_outcomes; auto|].
+  right; split; auto. right. exists o2, 1, (magic_of s2), (p :: pls), (map p_tp (p :: pls)).
+  split; [unfold viewf; rewrite filter_all_tps; reflexivity|]. split; [apply no_sp_outcomes; auto|]. split; reflexivity.
+Qed.
+
+Lemma lookups_progress_sp : forall s reqs ls s1 o1 done, lookups_progress s reqs ls = (s1, o1, done) ->
+  (no_sp o1) \/ (done = false /\ sp_ok s1 o1).
+Proof.
+  unfold lookups_progress; intros s reqs ls s1 o1 done H. destruct (all_done ls); [eapply send_requests_sp; eauto|].
+  inv H; left; apply no_sp_nil.
+Qed.
+
+Lemma check_retry_sp : forall c s pls fl s1 o1 done, check_retry c s pls fl = (s1, o1, done) -> no_sp o1.
+Proof.
+  unfold check_retry; intros c s pls fl s1 o1 done H. destruct ((c_max c <=? attempts s) || stopping s).
+  - destruct (deliver_failed s pls fl) eqn:E; inv H. apply no_sp_outcomes. eapply deliver_failed_xo; eauto.
+  - inv H. destruct (reset_topics fl); intros a m v X; simpl in X; intuition discriminate.
+Qed.
+
+Lemma handle_result_sp : forall c s pls cur v s1 o1 done, handle_result c s pls cur v = (s1, o1, done) -> no_sp o1.
+Proof.
+  unfold handle_result; intros c s pls cur v s1 o1 done H. destruct v.
+  - destruct (deliver s (all_sends pls) _) eqn:E; inv H. apply no_sp_outcomes. eapply deliver_xo; eauto.
+  - destruct (process_resps s pls rs) as [[s2 o2] f2] eqn:E. apply process_resps_xo in E as [_ E'].
+    destruct f2; [inv H; apply no_sp_outcomes; auto|].
+    destruct (check_retry c s2 pls _) as [[s3 o3] d3] eqn:E3. inv H.
+    apply no_sp_app; [apply no_sp_outcomes; auto|eapply check_retry_sp; eauto].
+  - destruct (if c_acks c =? 0 then _ else _) as [s0 o0] eqn:E0.
+    assert (A0 : only_outcomes o0).
+    { destruct (c_acks c =? 0); [apply deliver_xo in E0 as [_ E']; auto|inv E0; auto with prod]. }
+    destruct (process_resps s0 pls rs) as [[s2 o2] f2] eqn:E. apply process_resps_xo in E as [_ E'].
+    destruct (check_retry c s2 pls _) as [[s3 o3] d3] eqn:E3. inv H.
+    apply no_sp_app; [apply no_sp_outcomes; auto|]. apply no_sp_app; [apply no_sp_outcomes; auto|eapply check_retry_sp; eauto].
+  - eapply check_retry_sp; eauto.
+  - destruct (deliver s (all_sends pls) _) eqn:E; inv H. apply no_sp_outcomes. eapply deliver_xo; eauto.
+Qed.
+
+Lemma core_batch_sp : forall c s e s1 o1 ep, batch_event e = true -> core c s e = (s1, o1, ep) ->
+  no_sp o1 \/ (ep = NoEpi /\ sp_ok s1 o1).
+Proof.
+  intros c s e s1 o1 ep BE H. destruct e; try discriminate; cbn [core] in H.
+  - destruct (ph s) eqn:P; try (inv H; left; apply no_sp_nil; fail).
+    destruct (map_lookups _ s reqs ls) as [[s2 o2] ls2] eqn:E.
+    apply map_lookups_xl in E as (_ & A2 & _).
+    2:{ intros st x l st' o' l' Hf. destruct l; try discriminate. destruct (lid0 =? lid); [|discriminate].
+        inv Hf. destruct ok; [eapply lookup_loaded_xl; eauto|inv H1; xl_done]. }
+    destruct (lookups_progress s2 reqs ls2) as [[s3 o3] d3] eqn:E3. unfold fin_if in H. inv H.
+    apply lookups_progress_sp in E3 as [X|[-> X]]; [left; apply no_sp_app; auto; apply no_sp_lk; auto|].
+    right; split; auto. apply sp_ok_app_l; auto. apply no_sp_lk; auto.
+  - destruct (ph s) eqn:P; try (inv H; left; apply no_sp_nil; fail).
+    + destruct (map_lookups _ s reqs ls) as [[s2 o2] ls2] eqn:E.
+      apply map_lookups_xl in E as (_ & A2 & _).
+      2:{ intros st x l st' o' l' Hf. destruct l; try discriminate. destruct (tid0 =? tid); [|discriminate].
+          inv Hf. eapply lookup_head_xl; eauto. }
+      destruct (lookups_progress s2 reqs ls2) as [[s3 o3] d3] eqn:E3. unfold fin_if in H. inv H.
+      apply lookups_progress_sp in E3 as [X|[-> X]]; [left; apply no_sp_app; auto; apply no_sp_lk; auto|].
+      right; split; auto. apply sp_ok_app_l; auto. apply no_sp_lk; auto.
+    + destruct (tid0 =? tid); [|inv H; left; apply no_sp_nil]. inv H. right; split; auto.
+      right. exists [], (nsp s + 1), (magic_of s), pls, cur. split; [reflexivity|]. split; [apply no_sp_nil|]. split; reflexivity.
+  - destruct (ph s) eqn:P; try (inv H; left; apply no_sp_nil; fail).
+    destruct (r =? 0); [|destruct (r =? 1)].
+    + destruct (send_requests _ reqs res) as [[s2 o2] d2] eqn:E. unfold fin_if in H. inv H.
+      apply send_requests_sp in E as [X|[-> X]]; auto.
+    + destruct (send_requests _ reqs res) as [[s2 o2] d2] eqn:E. unfold fin_if in H. inv H.
+      apply send_requests_sp in E as [X|[-> X]]; auto.
+    + unfold version_failed in H. destruct (deliver s reqs _) eqn:E. unfold fin_if in H. inv H.
+      left. apply no_sp_outcomes. eapply deliver_xo; eauto.
+  - destruct (ph s) eqn:P; try (inv H; left; apply no_sp_nil; fail).
+    destruct (result_ok c cur v); [|inv H; left; apply no_sp_nil].
+    destruct (handle_result c s pls cur v) as [[s2 o2] d2] eqn:E. unfold fin_if in H. inv H.
+    left. eapply handle_result_sp; eauto.
+Qed.
+
+Lemma dispatch_sp : forall c s s' o, dispatch c s = (s', o) -> sp_ok s' o.
+Proof.
+  unfold dispatch; intros c s s' o H.
+  destruct (map_lookups _ _ (queue s) _) as [[s1 o1] ls] eqn:E1.
+  apply map_lookups_xl in E1 as (_ & A2 & _);
+    [|intros st x l st' o' l' Hf; inv Hf; eapply lookup_head_xl; eauto].
+  destruct (lookups_progress s1 (queue s) ls) as [[s2 o2] done] eqn:E2.
+  assert (N1 : no_sp (ODispatch (map s_id (queue s)) :: o1)).
+  { intros a m v [X|X]; [discriminate|]. eapply no_sp_lk; eauto. }
+  apply lookups_progress_sp in E2 as [X|[-> X]].
+  - apply no_sp_ok. destruct done; [unfold finish0 in H|]; inv H.
+    + replace (ODispatch (map s_id (queue s)) :: o1 ++ o2 ++ [OBatchDone]) with ((ODispatch (map s_id (queue s)) :: o1) ++ o2 ++ [OBatchDone]) by reflexivity.
+      apply no_sp_app; auto. apply no_sp_app; auto. intros a m v [Y|[]]; discriminate.
+    + replace (ODispatch (map s_id (queue s)) :: o1 ++ o2) with ((ODispatch (map s_id (queue s)) :: o1) ++ o2) by reflexivity.
+      apply no_sp_app; auto.
+  - inv H. replace (ODispatch (map s_id (queue s)) :: o1 ++ o2) with ((ODispatch (map s_id (queue s)) :: o1) ++ o2) by reflexivity.
+    apply sp_ok_app_l; auto.
+Qed.
+
+Lemma epi_sp : forall c s1 ep s2 o2, apply_epi c s1 ep = (s2, o2) -> sp_ok s2 o2.
+Proof.
+  intros c s1 ep s2 o2 A.
+  assert (T : forall s s' o, try_send_batch c s = (s', o) -> sp_ok s' o).
+  { intros s s' o H. apply try_send_batch_spec in H as [[_ D]|(_ & -> & ->)]; [eapply dispatch_sp; eauto|apply no_sp_ok, no_sp_nil]. }
+  assert (Ck : forall s s' o, check_send_batch c s = (s', o) -> sp_ok s' o).
+  { unfold check_send_batch; intros s s' o H. destruct (threshold c s); [eauto|inv H; apply no_sp_ok, no_sp_nil]. }
+  destruct ep; simpl in A; eauto.
+  - inv A. apply no_sp_ok, no_sp_nil.
+  - unfold finish, finish0 in A. destruct (check_send_batch c _) as [s4 o4] eqn:E. inv A.
+    apply Ck in E. change (OBatchDone :: o4) with ([OBatchDone] ++ o4). apply sp_ok_app_l; auto.
+    intros a m v [Y|[]]; discriminate.
+Qed.
+
+Theorem step_sp : forall c s e s' out, step c s e = (s', out) -> sp_ok s' out.
+Proof.
+  intros c s e s' out H.
+  assert (NS : (forall cv, e <> EStop cv) -> exists s1 o1 ep o2, core c s e = (s1, o1, ep) /\ apply_epi c s1 ep = (s', o2) /\ out = o1 ++ o2)
+    by (intros; eapply step_nonstop; eauto).
+  assert (BE : batch_event e = true -> sp_ok s' out).
+  { intros B. destruct (NS ltac:(intros ? ->; discriminate)) as (s1 & o1 & ep & o2 & C & A & ->).
+    apply core_batch_sp in C as [X|[-> X]]; auto.
+    - apply sp_ok_app_l; auto. eapply epi_sp; eauto.
+    - simpl in A. inv A. rewrite app_nil_r. auto. }
+  assert (Q : forall s1 o1 ep o2, no_sp o1 -> apply_epi c s1 ep = (s', o2) -> out = o1 ++ o2 -> sp_ok s' out).
+  { intros s1 o1 ep o2 N A ->. apply sp_ok_app_l; auto. eapply epi_sp; eauto. }
+  destruct e; try (apply BE; reflexivity).
+  - destruct (NS ltac:(intros ? X; discriminate X)) as (s1 & o1 & ep & o2 & C & A & E). cbn [core] in C.
+    eapply Q; eauto. destruct ((cnt <? 1) || (bytes <? 0)); inv C; [intros a m v [X|[]]; discriminate|apply no_sp_nil].
+  - destruct (NS ltac:(intros ? X; discriminate X)) as (s1 & o1 & ep & o2 & C & A & E). cbn [core] in C.
+    eapply Q; eauto. inv C. intros a m v [X|[]]; discriminate.
+  - destruct (NS ltac:(intros ? X; discriminate X)) as (s1 & o1 & ep & o2 & C & A & E). cbn [core] in C.
+    eapply Q; eauto. destruct (cancel_send s sid) as [s2 o3] eqn:Ec. inv C. apply no_sp_outcomes.
+    apply cancel_send_spec in Ec as (OO & _). auto.
+  - destruct (NS ltac:(intros ? X; discriminate X)) as (s1 & o1 & ep & o2 & C & A & E). cbn [core] in C.
+    eapply Q; eauto. inv C. apply no_sp_nil.
+  - destruct (NS ltac:(intros ? X; discriminate X)) as (s1 & o1 & ep & o2 & C & A & E). cbn [core] in C.
+    eapply Q; eauto. inv C. apply no_sp_nil.
+  - destruct (NS ltac:(intros ? X; discriminate X)) as (s1 & o1 & ep & o2 & C & A & E). cbn [core] in C.
+    eapply Q; eauto. inv C. apply no_sp_nil.
+  - (* stop: nothing is sent at all *)
+    apply no_sp_ok. intros a m v X.
+    unfold step in H. set (s0 := set_flags s true (looper s)) in *.
+    destruct (cancel_batch c s0 cv) as [[s1 o1] done] eqn:E.
+    assert (N1 : no_sp o1).
+    { unfold cancel_batch in E. destruct (ph s0) eqn:P.
+      - inv E. apply no_sp_nil.
+      - destruct (map_lookups _ s0 reqs ls) as [[s2 o2] ls2] eqn:E1.
+        pose proof E1 as E1'. apply map_lookups_xl in E1' as (A1 & A2 & _).
+        2:{ intros st x l st' o' l' Hf. destruct l; [discriminate| |].
+            - inv Hf. eapply lookup_loaded_xl; eauto.
+            - inv Hf. xl_done. }
+        assert (St2 : stopping s2 = true) by (apply eq_xl_keeps in A1; destruct A1; simpl in *; congruence).
+        unfold lookups_progress in E. destruct (all_done ls2).
+        + rewrite send_requests_stopping in E; auto. inv E. rewrite app_nil_r. apply no_sp_lk; auto.
+        + inv E. rewrite app_nil_r. apply no_sp_lk; auto.
+      - unfold version_failed in E. destruct (deliver s0 reqs _) eqn:D; inv E. apply no_sp_outcomes. eapply deliver_xo; eauto.
+      - eapply handle_result_sp; eauto.
+      - destruct (deliver s0 (all_sends pls) _) eqn:D; inv E. intros a' m' v' [Y|Y]; [discriminate|].
+        eapply no_sp_outcomes; [eapply deliver_xo; eauto|exact Y]. }
+    assert (K : stopping s1 = true).
+    { apply cancel_batch_ok in E. destruct E as [[_ _ _ K _ _] _ _]. rewrite K. reflexivity. }
+    unfold fin_if in H. destruct (apply_epi c s1 (if done then Fin else NoEpi)) as [s2 o2] eqn:A.
+    assert (N2 : no_sp o2).
+    { destruct done; simpl in A; [|inv A; apply no_sp_nil].
+      unfold finish, finish0 in A. destruct (stopping_no_dispatch c (set_retry (set_ph s1 Idle) 0 0 0) K) as [_ C]. rewrite C in A.
+      inv A. intros a' m' v' [Y|[]]; discriminate. }
+    destruct (cancel_all _ _) as [s4 o4] eqn:E4. inv H.
+    apply cancel_all_spec in E4 as (OO & _).
+    apply in_app_or in X as [X|X]; [eapply N1; eauto|]. apply in_app_or in X as [X|X]; [eapply N2; eauto|].
+    eapply no_sp_outcomes; eauto.
+Qed.
+
+(* ------------------------------------------------------------------ each message in exactly one payload per attempt *)
+Lemma sp_ok_in : forall s' out a m v, sp_ok s' out -> In (OSendProduce a m v) out ->
+  exists pls cur pre, ph s' = Sending pls cur /\ v = viewf pls cur /\ a = nsp s' /\ out = pre ++ [OSendProduce a m v] /\ no_sp pre.
+Proof.
+  intros s' out a m v [N|(pre & x & mg & pls & cur & -> & N & P & E)] H; [exfalso; eapply N; eauto|].
+  apply in_app_or in H as [H|[H|[]]]; [exfalso; eapply N; eauto|]. inv H. exists pls, cur, pre. auto.
+Qed.
+
+Lemma view_fst : forall l, map fst (map payload_view l) = map p_tp l.
+Proof. intros l. rewrite map_map. reflexivity. Qed.
+
+Lemma view_msgs : forall l, flat_map snd (map payload_view l) = flat_map msgs_of (all_sends l).
+Proof.
+  induction l as [|p r IH]; simpl; auto. rewrite IH. unfold all_sends. simpl. rewrite flat_map_app. reflexivity.
+Qed.
+
+Lemma nodup_app_intro : forall {A} (a b : list A), NoDup a -> NoDup b -> (forall x, In x a -> ~ In x b) -> NoDup (a ++ b).
+Proof.
+  induction a as [|x r IH]; simpl; intros b Na Nb D; auto. inversion Na; subst. constructor.
+  - intros X. apply in_app_or in X as [X|X]; auto. eapply D; eauto.
+  - apply IH; auto.
+Qed.
+
+Lemma msgs_of_nodup : forall x, NoDup (msgs_of x).
+Proof.
+  intros x. unfold msgs_of. apply FinFun.Injective_map_NoDup; [|apply seq_NoDup].
+  intros i j H. inv H. apply Nat2Z.inj; auto.
+Qed.
+
+Lemma msgs_nodup : forall L, NoDup (ids L) -> NoDup (flat_map msgs_of L).
+Proof.
+  induction L as [|x r IH]; simpl; intros N; [constructor|]. inversion N; subst.
+  apply nodup_app_intro; auto; [apply msgs_of_nodup|].
+  intros m Hm X. apply in_flat_map in X as (y & Hy & Hm'). apply msgs_of_fst in Hm. apply msgs_of_fst in Hm'.
+  apply H1. rewrite <- Hm, Hm'. apply in_map; auto.
+Qed.
+
+Lemma filter_tps_nodup : forall f pls, NoDup (map p_tp pls) -> NoDup (map p_tp (filter f pls)).
+Proof.
+  induction pls as [|p r IH]; simpl; intros N; auto. inversion N; subst. destruct (f p); simpl; auto.
+  constructor; auto. intros X. apply H1. apply in_map_iff in X as (q & E & Hq). apply filter_In in Hq as [Hq _].
+  rewrite <- E. apply in_map; auto.
+Qed.
+
+Lemma nodup_ids_filter : forall f pls, NoDup (ids (all_sends pls)) -> NoDup (ids (all_sends (filter f pls))).
+Proof.
+  induction pls as [|p r IH]; simpl; intros N; auto.
+  unfold all_sends, ids in *. simpl in N. rewrite map_app in N.
+  destruct (f p); simpl; [|apply IH; eapply nodup_app_r; eauto].
+  rewrite map_app. apply nodup_app_intro; [eapply nodup_app_l; eauto|apply IH; eapply nodup_app_r; eauto|].
+  intros i Hi X. eapply nodup_app_disj; eauto.
+  apply in_map_iff in X as (y & <- & Hy). apply in_map. apply in_flat_map in Hy as (q & Hq & Hy).
+  apply filter_In in Hq as [Hq _]. apply in_flat_map; eauto.
+Qed.
+
+Theorem one_payload : forall c s e s' out a m v, Inv s -> PInv c s -> step c s e = (s', out) ->
+  In (OSendProduce a m v) out ->
+  NoDup (map fst v) /\ NoDup (flat_map snd v) /\
+  (exists pl, v = map payload_view pl /\ Forall (fun p => sorted_lt (ids (p_sends p))) pl) /\
+  (exists pre, out = pre ++ [OSendProduce a m v] /\ no_sp pre).
+Proof.
+  intros c s e s' out a m v I P H X.
+  destruct (sp_ok_in _ _ _ _ _ (step_sp _ _ _ _ _ H) X) as (pls & cur & pre & Ph & -> & -> & E & N).
+  destruct (step_c09 _ _ _ _ _ I P H) as [[_ P'] _]. rewrite Ph in P'. destruct P' as ([W1 W2] & _).
+  pose proof (inv_of_step _ _ _ _ _ I H) as [[IB' _ _ _] _]. pose proof (i_bnodup _ _ IB') as D. rewrite Ph in D. simpl in D.
+  unfold viewf. rewrite view_fst, view_msgs. repeat split.
+  - apply filter_tps_nodup; auto.
+  - apply msgs_nodup, nodup_ids_filter; auto.
+  - eexists; split; [reflexivity|]. clear - W2. induction pls as [|p r IH]; simpl; [constructor|].
+    inversion W2; subst. destruct (tpmem (p_tp p) cur); auto.
+  - exists pre; auto.
+Qed.
+
+(* ------------------------------------------------------------------ per-partition order *)
+(* the sends that have not yet been in a first attempt: the batch whose partitions are being looked up, then the queue *)
+Definition pend (s : state) : list Z :=
+  match ph s with Looking reqs _ | VerWait reqs _ => ids reqs | _ => [] end ++ ids (queue s).
+Definition low (s : state) : Z := hd (nsend s) (pend s).
+
+Lemma sorted_lt_app : forall a b, sorted_lt a -> sorted_lt b -> (forall x y, In x a -> In y b -> x < y) -> sorted_lt (a ++ b).
+Proof.
+  induction a as [|x r IH]; simpl; intros b Sa Sb D; auto. inversion Sa; subst. constructor.
+  - apply IH; auto.
+  - apply Forall_app; split; auto. apply Forall_forall. intros y Hy. apply D; auto.
+Qed.
+
+Lemma pend_pool : forall s, incl (pend s) (pool s).
+Proof. unfold pend, pool; intros s. destruct (ph s); simpl; try apply incl_refl; apply incl_appr, incl_refl. Qed.
+
+Lemma pend_sorted : forall c s, Inv s -> PInv c s -> sorted_lt (pend s).
+Proof.
+  intros c s [[IB _ _ _] _] [_ P]. pose proof (i_qsorted _ _ IB) as Q. pose proof (i_blt _ _ IB) as B.
+  unfold pend. destruct (ph s); simpl in *; auto; destruct P as [_ S]; apply sorted_lt_app; auto.
+Qed.
+
+Lemma pend_bound : forall s, Inv s -> Forall (fun i => 0 <= i < nsend s) (pend s).
+Proof.
+  intros s [[IB _ _ _] _]. pose proof (i_qbound _ _ IB) as Q. pose proof (i_bbound _ _ IB) as B.
+  unfold pend. destruct (ph s); simpl in *; auto; apply Forall_app; auto.
+Qed.
+
+Lemma low_min : forall c s, Inv s -> PInv c s -> low s <= nsend s /\ forall y, In y (pend s) -> low s <= y.
+Proof.
+  intros c s I P. pose proof (pend_sorted _ _ I P) as S. pose proof (pend_bound _ I) as B. unfold low.
+  destruct (pend s) as [|x r]; simpl; [split; [lia|intros ? []]|].
+  inversion S; subst. inversion B; subst. split; [lia|]. intros y [<-|Hy]; [lia|]. rewrite Forall_forall in H2. apply H2 in Hy. lia.
+Qed.
+
+Lemma mon_a_mono : forall c o m m', mon_run c m o = Some m' -> no_ghost o ->
+  m_a m <= m_a m' /\ forall a mg v, In (OSendProduce a mg v) o -> m_a m + 1 <= a.
+Proof.
+  induction o as [|x r IH]; simpl; intros m m' H G; [inv H; split; [lia|intros ? ? ? []]|].
+  inversion G; subst. destruct (mon_step c m x) as [m1|] eqn:E; [|discriminate].
+  destruct (IH _ _ H H3) as [A B].
+  assert (X : m_a m <= m_a m1 /\ forall a mg v, x = OSendProduce a mg v -> m_a m + 1 <= a).
+  { destruct x; simpl in E, H2; try discriminate; try (destruct (m_fl m); inv E; split; [lia|discriminate]).
+    - destruct (m_fl m); simpl in E; [|discriminate]. destruct (attempt =? m_a m + 1) eqn:E1; simpl in E; [|discriminate].
+      destruct (attempt <=? Z.max 1 (c_max c)); inv E. apply Z.eqb_eq in E1. simpl. split; [lia|]. intros a mg v Y; inv Y; lia.
+    - destruct (m_fl m && (k =? m_k m)); inv E; simpl; split; [lia|discriminate].
+    - inv E; split; [lia|discriminate]. }
+  destruct X as [X1 X2]. split; [lia|]. intros a mg v [Y|Y]; [eauto|]. apply B in Y. lia.
+Qed.
+
+Definition first_wire (out : list output) : list Z :=
+  flat_map (fun o => match o with OSendProduce a _ v => if a =? 1 then map fst (flat_map snd v) else [] | _ => [] end) out.
+
+Lemma first_wire_app : forall a b, first_wire (a ++ b) = first_wire a ++ first_wire b.
+Proof. intros; unfold first_wire; apply flat_map_app. Qed.
+Lemma first_wire_no_sp : forall o, no_sp o -> first_wire o = [].
+Proof.
+  induction o as [|x r IH]; simpl; intros N; auto. rewrite IH; [|intros a m v H; eapply N; right; eauto].
+  destruct x; auto. exfalso. eapply N. left; reflexivity.
+Qed.
+Lemma first_wire_in : forall B out, wire_in B out -> incl (first_wire out) B.
+Proof.
+  intros B out W i Hi. unfold first_wire in Hi. apply in_flat_map in Hi as (o & Ho & Hi).
+  destruct o; try destruct Hi. destruct (attempt =? 1); [|destruct Hi]. eapply (W _ Ho). exact Hi.
+Qed.
+
+Lemma pend_step : forall c s e s' out, Inv s -> PInv c s -> step c s e = (s', out) ->
+  incl (pend s') (pend s ++ new_sids s e) /\ incl (first_wire out) (pend s ++ new_sids s e).
+Proof.
+  intros c s e s' out I P H. pose proof I as [W L]. pose proof W as [IB PW ID ST].
+  assert (NS : (forall cv, e <> EStop cv) -> exists s1 o1 ep o2, core c s e = (s1, o1, ep) /\ apply_epi c s1 ep = (s', o2) /\ out = o1 ++ o2)
+    by (intros; eapply step_nonstop; eauto).
+  (* an epilogue that starts from a state s1 with pend s1 = ids (queue s1) prefix-free part *)
+  assert (EP : forall s1 ep o2, WInv s1 -> apply_epi c s1 ep = (s', o2) ->
+                 (incl (pend s') (ids (queue s1)) /\ incl (first_wire o2) (ids (queue s1))) \/ (s' = s1 /\ o2 = [])).
+  { intros s1 ep o2 W1 A. apply epi_wire in A as [[X Y]|[-> ->]]; auto. left. split.
+    - eapply incl_tran; [apply pend_pool|exact Y].
+    - apply first_wire_in; auto. }
+  assert (BE : batch_event e = true -> incl (pend s') (pend s ++ new_sids s e) /\ incl (first_wire out) (pend s ++ new_sids s e)).
+  { intros B. destruct (NS ltac:(intros ? ->; discriminate)) as (s1 & o1 & ep & o2 & C & A & ->).
+    assert (E0 : new_sids s e = []) by (destruct e; try discriminate; reflexivity). rewrite E0, app_nil_r.
+    pose proof (core_batch_wire _ _ _ _ _ _ (i_onodup _ _ IB) B C) as WI.
+    pose proof (core_batch_sp _ _ _ _ _ _ B C) as SP.
+    pose proof C as C'. apply core_batch_rstep with (c := c) in C' as [(-> & -> & ->)|(NI & done & RS & ->)]; auto.
+    { simpl in A. inv A. split; [apply incl_refl|intros ? []]. }
+    apply core_batch in C as [(-> & -> & X)|(_ & done' & BS & X)]; auto;
+      try apply (i_onodup _ _ IB); try apply (i_bnodup _ _ IB).
+    { destruct done; [discriminate|]. simpl in A. inv A. split; [apply incl_refl|intros ? []]. }
+    assert (done' = done) by (destruct done, done'; auto; discriminate). subst done'. clear X.
+    pose proof (bs_keeps _ _ _ _ _ BS) as [K1 _ _ _ _ _]. pose proof (bs_ng _ _ _ _ _ BS) as NG.
+    destruct RS as [M Pp].
+    (* first attempts among o1 come from the lookups of this batch *)
+    assert (F1 : incl (first_wire o1) (pend s)).
+    { destruct (ph s) eqn:Ph; try congruence.
+      - apply first_wire_in. eapply wire_in_mono; [|exact WI]. unfold pend. rewrite Ph. simpl. apply incl_appl, incl_refl.
+      - apply first_wire_in. eapply wire_in_mono; [|exact WI]. unfold pend. rewrite Ph. simpl. apply incl_appl, incl_refl.
+      - destruct P as [_ P]. rewrite Ph in P. destruct P as (_ & _ & _ & [Pn _] & _).
+        destruct (mon_a_mono _ _ _ _ M NG) as [_ Bm]. intros i Hi. exfalso.
+        unfold first_wire in Hi. apply in_flat_map in Hi as (o & Ho & Hi). destruct o; try destruct Hi.
+        destruct (attempt =? 1) eqn:E1; [|destruct Hi]. apply Z.eqb_eq in E1. apply Bm in Ho. simpl in Ho. lia.
+      - destruct P as [_ P]. rewrite Ph in P. destruct P as (_ & _ & _ & [Pn _] & _).
+        destruct (mon_a_mono _ _ _ _ M NG) as [_ Bm]. intros i Hi. exfalso.
+        unfold first_wire in Hi. apply in_flat_map in Hi as (o & Ho & Hi). destruct o; try destruct Hi.
+        destruct (attempt =? 1) eqn:E1; [|destruct Hi]. apply Z.eqb_eq in E1. apply Bm in Ho. simpl in Ho. lia. }
+    destruct done; simpl in A.
+    - pose proof (invB_bstep _ _ _ _ _ [] IB BS (incl_nil_l _) (NoDup_nil _)) as I2.
+      unfold finish in A. destruct (finish0 s1) as [s3 o3] eqn:F. destruct (check_send_batch c s3) as [s4 o4] eqn:E. inv A.
+      destruct (finish0_inv _ _ _ _ I2 F) as (W3 & -> & [J1 _ _ _ _ _] & _ & P3).
+      assert (Q : incl (ids (queue s3)) (pend s)) by (rewrite J1, K1; unfold pend; apply incl_appr, incl_refl).
+      destruct (EP s3 Check o4 W3 E) as [[X Y]|[-> ->]].
+      + split; [eapply incl_tran; eauto|]. rewrite !first_wire_app. simpl. apply incl_app; auto. eapply incl_tran; eauto.
+      + split; [unfold pend; rewrite P3; simpl; exact Q|]. rewrite !first_wire_app. simpl. rewrite app_nil_r. exact F1.
+    - inv A. rewrite app_nil_r. split; auto.
+      destruct (bs_ph _ _ _ _ _ BS eq_refl) as (P1 & P2 & _).
+      destruct (mon_a_mono _ _ _ _ M NG) as [Am _]. simpl in Am.
+      specialize (Pp eq_refl). destruct Pp as [_ Pp].
+      unfold pend. rewrite K1. apply incl_app; [|apply incl_appr, incl_refl].
+      destruct (ph s') eqn:Ph'; try (intros ? []); simpl in P2; destruct Pp as [N0 _];
+        (destruct (ph s) eqn:Ph; try congruence;
+          [apply incl_appl, ids_incl; exact P2|apply incl_appl, ids_incl; exact P2| |]);
+        destruct P as [_ P]; rewrite Ph in P; destruct P as (_ & _ & _ & [Pn _] & _); lia. }
+  destruct e; try (apply BE; reflexivity).
+  - destruct (NS ltac:(intros ? X; discriminate X)) as (s1 & o1 & ep & o2 & C & A & ->). cbn [core] in C.
+    destruct ((cnt <? 1) || (bytes <? 0)) eqn:G.
+    + inv C. simpl in A. inv A. split; [apply incl_appl; unfold pend; simpl; apply incl_refl|intros ? []].
+    + apply orb_false_iff in G as [G1 G2]. apply Z.ltb_ge in G1, G2. inv C.
+      match type of A with apply_epi _ ?st _ = _ => assert (W1 : WInv st) by (apply inv_send; auto) end.
+      destruct (EP _ _ _ W1 A) as [[X Y]|[-> ->]]; simpl in *.
+      * unfold ids in X, Y. rewrite map_app in X, Y. simpl in X, Y.
+        assert (Q : incl (map s_id (queue s) ++ [nsend s]) (pend s ++ [nsend s])).
+        { unfold pend, ids. rewrite <- app_assoc. apply incl_appr, incl_refl. }
+        split; eapply incl_tran; eauto.
+      * split; [|intros ? []]. unfold pend, ids. simpl. rewrite map_app. simpl. rewrite app_assoc. apply incl_refl.
+  - destruct (NS ltac:(intros ? X; discriminate X)) as (s1 & o1 & ep & o2 & C & A & ->). cbn [core] in C.
+    inv C. simpl in A. inv A. split; [apply incl_appl; unfold pend; simpl; apply incl_refl|intros ? []].
+  - destruct (NS ltac:(intros ? X; discriminate X)) as (s1 & o1 & ep & o2 & C & A & ->). cbn [core] in C.
+    destruct (cancel_send s sid) as [s2 o3] eqn:Ec. inv C. simpl in A. inv A. simpl. rewrite !app_nil_r.
+    apply cancel_send_spec in Ec as (OO & Ph & _ & _ & _ & _ & _ & _ & _ & _ & _ & _ & [(-> & -> & _)|(_ & _ & [(Q & _)|(x & Rm & _)])]).
+    + split; [apply incl_refl|intros ? []].
+    + split; [unfold pend; rewrite Ph, Q; apply incl_refl|rewrite first_wire_no_sp; [intros ? []|apply no_sp_outcomes; auto]].
+    + split; [|rewrite first_wire_no_sp; [intros ? []|apply no_sp_outcomes; auto]].
+      apply remove_send_spec in Rm as (a & b & Qa & Qb & _).
+      unfold pend. rewrite Ph, Qa, Qb. apply incl_app; [apply incl_appl, incl_refl|apply incl_appr, ids_incl].
+      intros z Hz. apply in_app_or in Hz as [Hz|Hz]; apply in_or_app; [left|right; right]; auto.
+  - destruct (NS ltac:(intros ? X; discriminate X)) as (s1 & o1 & ep & o2 & C & A & ->). cbn [core] in C.
+    inv C. simpl. rewrite app_nil_r. destruct (EP _ _ _ W A) as [[X Y]|[-> ->]].
+    + assert (Q : incl (ids (queue s1)) (pend s1)) by (unfold pend; apply incl_appr, incl_refl).
+      split; eapply incl_tran; eauto.
+    + split; [apply incl_refl|intros ? []].
+  - destruct (NS ltac:(intros ? X; discriminate X)) as (s1 & o1 & ep & o2 & C & A & ->). cbn [core] in C.
+    inv C. simpl in A. inv A. simpl. rewrite app_nil_r. split; [apply incl_refl|intros ? []].
+  - destruct (NS ltac:(intros ? X; discriminate X)) as (s1 & o1 & ep & o2 & C & A & ->). cbn [core] in C.
+    inv C. simpl in A. inv A. simpl. rewrite app_nil_r. split; [apply incl_refl|intros ? []].
+  - pose proof (step_sp _ _ _ _ _ H) as SP.
+    apply stop_step_spec in H; auto. destruct H as [_ _ (_ & _ & Ph) (Q & _) F]. split.
+    + unfold pend. rewrite Ph, Q. simpl. intros ? [].
+    + intros i Hi. exfalso. unfold first_wire in Hi. apply in_flat_map in Hi as (o & Ho & Hi).
+      rewrite Forall_forall in F. apply F in Ho. destruct o; simpl in Ho; try destruct Ho; destruct Hi.
+Qed.
+
+(* messages (send id, index) ordered by submission, then by position in the send *)
+Definition lex_lt (a b : Z * Z) : Prop := fst a < fst b \/ (fst a = fst b /\ snd a < snd b).
+(* the messages of first-attempt payloads for topic-partition x, in wire order *)
+Definition msgs_for (x : tp) (v : list (tp * list (Z * Z))) : list (Z * Z) :=
+  flat_map (fun pv => if tp_eqb (fst pv) x then snd pv else []) v.
+Definition msgs_first (x : tp) (outs : list output) : list (Z * Z) :=
+  flat_map (fun o => match o with OSendProduce a _ v => if a =? 1 then msgs_for x v else [] | _ => [] end) outs.
+
+Lemma msgs_first_app : forall x a b, msgs_first x (a ++ b) = msgs_first x a ++ msgs_first x b.
+Proof. intros; unfold msgs_first; apply flat_map_app. Qed.
+Lemma msgs_first_no_sp : forall x o, no_sp o -> msgs_first x o = [].
+Proof.
+  induction o as [|y r IH]; simpl; intros N; auto. rewrite IH; [|intros a m v H; eapply N; right; eauto].
+  destruct y; auto. exfalso. eapply N. left; reflexivity.
+Qed.
+
+Lemma msgs_for_fst : forall x v m, In m (msgs_for x v) -> In (fst m) (map fst (flat_map snd v)).
+Proof.
+  intros x v m H. unfold msgs_for in H. apply in_flat_map in H as (pv & Hpv & Hm).
+  destruct (tp_eqb (fst pv) x); [|destruct Hm]. apply in_map. apply in_flat_map. eauto.
+Qed.
+
+Lemma msgs_first_wire : forall x out m, In m (msgs_first x out) -> In (fst m) (first_wire out).
+Proof.
+  intros x out m H. unfold msgs_first in H. apply in_flat_map in H as (o & Ho & Hm).
+  unfold first_wire. apply in_flat_map. exists o. split; auto. destruct o; try destruct Hm.
+  destruct (attempt =? 1); [|destruct Hm]. eapply msgs_for_fst; eauto.
+Qed.
+
+Lemma msgs_of_sorted : forall y, StronglySorted lex_lt (msgs_of y).
+Proof.
+  intros y. unfold msgs_of. generalize (Z.to_nat (s_cnt y)). intros n. generalize 0%nat.
+  induction n as [|n IH]; simpl; intros k; constructor; auto.
+  apply Forall_forall. intros m Hm. apply in_map_iff in Hm as (j & <- & Hj). apply in_seq in Hj.
+  right; simpl; split; auto. lia.
+Qed.
+
+Lemma lex_sorted_app : forall a b, StronglySorted lex_lt a -> StronglySorted lex_lt b ->
+  (forall p q, In p a -> In q b -> lex_lt p q) -> StronglySorted lex_lt (a ++ b).
+Proof.
+  induction a as [|p r IH]; simpl; intros b Sa Sb D; auto. inversion Sa; subst. constructor.
+  - apply IH; auto.
+  - apply Forall_app; split; auto. apply Forall_forall. intros q Hq. apply D; auto.
+Qed.
+
+Lemma msgs_sorted : forall L, sorted_lt (ids L) -> StronglySorted lex_lt (flat_map msgs_of L).
+Proof.
+  induction L as [|y r IH]; simpl; intros S; [constructor|]. inversion S; subst.
+  apply lex_sorted_app; auto; [apply msgs_of_sorted|].
+  intros p q Hp Hq. apply in_flat_map in Hq as (z & Hz & Hq). apply msgs_of_fst in Hp. apply msgs_of_fst in Hq.
+  left. rewrite Hp, Hq. rewrite Forall_forall in H2. apply H2. apply in_map; auto.
+Qed.
+
+Lemma msgs_for_view : forall x l, NoDup (map p_tp l) -> Forall (fun p => sorted_lt (ids (p_sends p))) l ->
+  StronglySorted lex_lt (msgs_for x (map payload_view l)).
+Proof.
+  induction l as [|p r IH]; simpl; intros N F; [constructor|]. inversion N; subst. inversion F; subst.
+  unfold msgs_for in *. simpl. destruct (tp_eqb (p_tp p) x) eqn:E.
+  - apply tp_eqb_eq in E. subst x.
+    assert (Z0 : flat_map (fun pv : tp * list (Z * Z) => if tp_eqb (fst pv) (p_tp p) then snd pv else []) (map payload_view r) = []).
+    { clear - H1. induction r as [|q r IH]; simpl; auto. simpl in H1.
+      destruct (tp_eqb (p_tp q) (p_tp p)) eqn:E; [apply tp_eqb_eq in E; exfalso; apply H1; left; auto|].
+      apply IH. intros X; apply H1; right; auto. }
+    rewrite Z0, app_nil_r. apply msgs_sorted; auto.
+  - simpl. apply IH; auto.
+Qed.
+
+Lemma filter_forall : forall {A} (P : A -> Prop) f l, Forall P l -> Forall P (filter f l).
+Proof. induction l as [|x r IH]; simpl; intros F; auto. inversion F; subst. destruct (f x); auto. Qed.
+
+(* one step: the first-attempt messages of x are sorted, lie between the two low-water marks, which only move up *)
+Theorem order_step : forall c s e s' out x, Inv s -> PInv c s -> step c s e = (s', out) ->
+  StronglySorted lex_lt (msgs_first x out) /\
+  Forall (fun m => low s <= fst m < low s') (msgs_first x out) /\ low s <= low s'.
+Proof.
+  intros c s e s' out x I P H.
+  pose proof (inv_of_step _ _ _ _ _ I H) as I'. destruct (step_c09 _ _ _ _ _ I P H) as [P' _].
+  destruct (pend_step _ _ _ _ _ I P H) as [D A]. destruct (low_min _ _ I P) as [L1 L2]. destruct (low_min _ _ I' P') as [L1' L2'].
+  destruct (step_inv _ _ _ _ _ I H) as [_ _ NS].
+  assert (NW : forall i, In i (pend s ++ new_sids s e) -> low s <= i).
+  { intros i Hi. apply in_app_or in Hi as [Hi|Hi]; auto. destruct e; simpl in Hi; try tauto; destruct Hi as [<-|[]]; lia. }
+  assert (LM : low s <= low s').
+  { unfold low at 2. destruct (pend s') as [|y r] eqn:Q; simpl; [lia|]. apply NW, D. left; reflexivity. }
+  split; [|split; auto].
+  - destruct (step_sp _ _ _ _ _ H) as [N|(pre & a & m & pls & cur & -> & N & Ph & Ea)].
+    + rewrite msgs_first_no_sp; auto. constructor.
+    + rewrite msgs_first_app, msgs_first_no_sp; auto. simpl. rewrite app_nil_r. destruct (a =? 1); [|constructor].
+      destruct P' as [_ P']. rewrite Ph in P'. destruct P' as ([W1 W2] & _). unfold viewf.
+      apply msgs_for_view; [apply filter_tps_nodup; auto|apply filter_forall; auto].
+  - apply Forall_forall. intros m Hm. split.
+    + apply NW, A. eapply msgs_first_wire; eauto.
+    + (* below the new low-water mark: it is in the batch now on the wire *)
+      destruct (step_sp _ _ _ _ _ H) as [N|(pre & a & mg & pls & cur & -> & N & Ph & Ea)].
+      * rewrite msgs_first_no_sp in Hm; auto. destruct Hm.
+      * rewrite msgs_first_app, msgs_first_no_sp in Hm; auto. simpl in Hm. rewrite app_nil_r in Hm.
+        destruct (a =? 1); [|destruct Hm]. apply msgs_for_fst in Hm. unfold viewf in Hm. rewrite view_msgs in Hm.
+        assert (Hb : In (fst m) (ids (batch_sends (ph s')))).
+        { rewrite Ph. simpl. apply in_map_iff in Hm as (q & <- & Hq). apply in_flat_map in Hq as (y & Hy & Hq).
+          rewrite (msgs_of_fst _ _ Hq). apply in_map. revert Hy. apply all_sends_filter_incl. }
+        destruct I' as [[IB' _ _ _] _]. unfold low. destruct (pend s') as [|y r] eqn:Q; simpl.
+        -- pose proof (i_bbound _ _ IB') as B. rewrite Forall_forall in B. apply B in Hb. unfold id_ok in Hb. lia.
+        -- apply (i_blt _ _ IB'); auto. assert (Hy : In y (pend s')) by (rewrite Q; left; reflexivity).
+           unfold pend in Hy. rewrite Ph in Hy. simpl in Hy. exact Hy.
+Qed.
+
+Theorem order_run : forall c evs s s' tr x, Inv s -> PInv c s -> run c s evs = (s', tr) ->
+  StronglySorted lex_lt (msgs_first x (outs_of tr)) /\
+  Forall (fun m => low s <= fst m < low s') (msgs_first x (outs_of tr)) /\ low s <= low s'.
+Proof.
+  induction evs as [|e r IH]; simpl; intros s s' tr x I P H.
+  - inv H. simpl. repeat split; try constructor; lia.
+  - destruct (step c s e) as [s1 o] eqn:E. destruct (run c s1 r) as [s2 t2] eqn:E2. inv H.
+    destruct (order_step _ _ _ _ _ x I P E) as (S1 & F1 & M1).
+    destruct (step_c09 _ _ _ _ _ I P E) as [P1 _].
+    destruct (IH _ _ _ x (inv_of_step _ _ _ _ _ I E) P1 E2) as (S2 & F2 & M2).
+    unfold outs_of in *. simpl. rewrite msgs_first_app. split; [|split; [|lia]].
+    + apply lex_sorted_app; auto. intros p q Hp Hq. rewrite Forall_forall in F1, F2. apply F1 in Hp. apply F2 in Hq. left. lia.
+    + apply Forall_app; split; eapply Forall_impl; try eassumption; simpl; intros; lia.
+Qed.
+
+Theorem order_from_init : forall c has_t api0 cache0 evs s tr x,
+  run c (init_state has_t api0 cache0) evs = (s, tr) -> StronglySorted lex_lt (msgs_first x (outs_of tr)).
+Proof.
+  intros c h a ca evs s tr x H. eapply order_run in H; [|apply init_inv|apply init_pinv]. apply H.
+Qed.
+
+Theorem pinv_reachable : forall c s, reachable c s -> PInv c s.
+Proof.
+  intros c s (h & a & ca & evs & <-). destruct (run c _ evs) as [s' tr] eqn:E. simpl.
+  eapply run_c09 in E; [|apply init_inv|apply init_pinv]. apply E.
 Qed.
